@@ -376,6 +376,97 @@ def rule_r7(repo, run):
     run.floor(R, "writer sites of _PTR_C_CXX_index", n, 2)
 
 
+def rule_r8(repo, run):
+    R = run.rule("C02.R8", "type spellings and enumerator values seen by the C caller are the C++ ones "
+                           "(canonical type table: C09.R5; C side of the enum value rules: C11.R1/R6)")
+    from checks import c09, c11
+    from sa.report import import_rules
+    import_rules(run, R, c09, repo, {"C09.R5"})
+    # only what reaches the C header: explicit values are stored as C_value and wrapc prints exactly those
+    import_rules(run, R, c11, repo, {"C11.R1", "C11.R6"},
+                 only=lambda c: c.endswith(":C_value") or c.endswith(":int-literal") or c.startswith("wrapc."))
+
+
+INTENT_TABLE = [
+    # (description, state, documented default)  docs/declarations.rst, docs/appendix-A.rst
+    ("value argument", dict(op=None, const=False), "in"),
+    ("const value argument", dict(op=None, const=True), "in"),
+    ("const pointer", dict(op="*", const=True), "in"),
+    ("const reference", dict(op="&", const=True), "in"),
+    ("non-const pointer", dict(op="*", const=False), "inout"),
+    ("non-const reference", dict(op="&", const=False), "inout"),
+    ("void pointer", dict(op="*", const=False, void=True), "in"),
+    ("function pointer", dict(op="*", const=False, fptr=True), "in"),
+]
+
+
+def rule_r9(repo, run):
+    R = run.rule("C02.R9", "default intent of an argument without +intent: in for values, const pointers/references, "
+                           "void* and function pointers; inout for non-const pointers and references")
+    from sa import decide
+    gm = repo.module("generate")
+    dm = repo.module("declast")
+    f = gm.func("VerifyAttrs.check_intent_attr")
+    sem = decide.pointer_predicates(dm)
+    if set(sem) != {"is_pointer", "is_reference", "is_indirect"}:
+        raise AnalysisError("C02.R9: cannot derive the meaning of Declaration.is_pointer/is_reference/is_indirect")
+    argname = f.args.args[2].arg
+    nodename = f.args.args[1].arg
+    # single-assignment aliases such as `is_ptr = arg.is_indirect()`
+    alias = {}
+    for n in f.body:
+        if isinstance(n, ast.Assign) and len(n.targets) == 1 and isinstance(n.targets[0], ast.Name):
+            alias.setdefault(n.targets[0].id, []).append(n.value)
+    chain = [n for n in f.body if isinstance(n, ast.If)]
+    if not chain:
+        raise AnalysisError("C02.R9: no decision chain in check_intent_attr")
+    n = 0
+    for desc, st, want in INTENT_TABLE:
+        def oracle(e, st=st):
+            if isinstance(e, ast.Name) and e.id in alias and len(alias[e.id]) == 1:
+                return decide.evaluate(alias[e.id][0], oracle)
+            if isinstance(e, ast.Name) and e.id == "intent":
+                return None
+            if isinstance(e, ast.Compare) and len(e.ops) == 1:
+                l = pyflow.dotted(e.left) or ""
+                if isinstance(e.ops[0], (ast.Is, ast.IsNot)) and isinstance(e.comparators[0], ast.Constant) \
+                        and e.comparators[0].value is None:
+                    if l == "intent":
+                        return isinstance(e.ops[0], ast.Is)          # no explicit attribute
+                    if l == nodename:
+                        return isinstance(e.ops[0], ast.IsNot)       # a real function node
+                if l.endswith(".sgroup") and isinstance(e.ops[0], (ast.Eq, ast.NotEq)):
+                    v = pyflow.const_str(e.comparators[0]) == "void" and bool(st.get("void"))
+                    return v if isinstance(e.ops[0], ast.Eq) else not v
+                return None
+            if isinstance(e, ast.Call) and isinstance(e.func, ast.Attribute) and pyflow.is_name(e.func.value, argname):
+                m = e.func.attr
+                if m in sem:
+                    return st["op"] in sem[m]
+                if m == "is_function_pointer":
+                    return bool(st.get("fptr"))
+                return None
+            if isinstance(e, ast.Attribute) and pyflow.is_name(e.value, argname) and e.attr == "const":
+                return bool(st["const"])
+            return None
+        taken = decide.take(chain, oracle)
+        construct = "generate.VerifyAttrs.check_intent_attr:default[%s]" % desc
+        if taken is None:
+            run.unmodelled_site(R, construct, "a test of the decision chain is outside the modelled predicates")
+            continue
+        got = None
+        for s_ in taken:
+            if isinstance(s_, ast.Assign) and pyflow.is_name(s_.targets[0], "intent"):
+                got = pyflow.const_str(s_.value)
+        n += 1
+        run.check(R, construct, got == want,
+                  "a %s without +intent gets intent(%s); documented default is intent(%s): %s"
+                  % (desc, got, want, "the wrapper no longer copies results back to the caller" if want == "inout"
+                     else "the wrapper treats an input as output"), gm.loc(f),
+                  sample=dict(argument=desc, default=got))
+    run.floor(R, "decided rows of the default-intent table", n, 6)
+
+
 def run(repo, run, tier):
     tables.check_model_assumptions(repo)
     table = tables.StatementTable(repo, "statements", "fc_statements")
@@ -387,3 +478,5 @@ def run(repo, run, tier):
     rule_r5(repo, run)
     rule_r6(repo, run)
     rule_r7(repo, run)
+    rule_r8(repo, run)
+    rule_r9(repo, run)
